@@ -273,7 +273,9 @@ func l2Probe(e *L2Env, seed uint64, knownVals []ValKey) []string {
 	l2 := e.L2
 	rng := mon.NewRand(seed)
 	var out []string
-	q := func(name string, v interface{}, err error) { out = append(out, fmt.Sprintf("Q %s -> %v err=%v", name, v, err)) }
+	q := func(name string, v interface{}, err error) {
+		out = append(out, fmt.Sprintf("Q %s -> %v err=%v", name, v, err))
+	}
 	m := func(name string, res sim.Result) {
 		ev := ""
 		for _, e := range res.Events {
